@@ -1,6 +1,8 @@
 From Coq Require Import List NArith Bool.
 From V.gen Require Consts.
-From V.C03 Require Import Model Msg Proofs MsgRef MsgProofs.
+From V.C03 Require Import Model Msg Proofs UviProofs LsProofs WebRtc WebRtcProofs Fallback.
+From V.C03 Require Import MsgRef MsgProofs MsgInv Chan Dir SimD SimL SimSys BytesThm LazyThm.
+From V.C03 Require Import Work Work2 Live.
 Import ListNotations.
 Open Scope N_scope.
 From V.C03 Require Import Properties.
@@ -8,6 +10,14 @@ Check (C03_codec_roundtrip :
   forall m, wf_msg m -> decode_msg (encode_msg m) = DOk m).
 Check (C03_codec_injective :
   forall m1 m2, wf_msg m1 -> wf_msg m2 -> encode_msg m1 = encode_msg m2 -> m1 = m2).
+Check (C03_ls_roundtrip :
+  forall ps, Forall wf_entry ps -> N.of_nat (length ps) <= V.gen.Consts.C03_MAX_PROTOCOLS ->
+  decode_msg (encode_msg (MProtos ps)) = DOk (MProtos ps)).
+Check (C03_ls_too_many :
+  forall ps, Forall wf_entry ps -> V.gen.Consts.C03_MAX_PROTOCOLS < N.of_nat (length ps) ->
+  decode_msg (encode_msg (MProtos ps)) = DErr ETooMany).
+Check (C03_varint_roundtrip :
+  forall n t, n < 2 ^ 64 -> uvi_dec (uvi_enc n ++ t) = Some (n, t)).
 Check (C03_frame_exact :
   forall body tail, len body <= MAX_FRAME ->
   forall fuel st p pre st' p' r,
@@ -47,3 +57,113 @@ Check (C03_handover_listener :
   let s := mrun ls sched (minit ds) in
   l_result s = Some (Some p) ->
   c_dl s = [] /\ ml_wbuf (sl s) = [] /\ dl_closed s = false /\ ld_closed s = false).
+Check (C03_bytes_project :
+  forall c who, wf_case c ->
+  exists sched, Sim (c_ds c) (c_ls c) (polls who (sys_init c)) (mrun (c_ls c) sched (minit (c_ds c)))).
+Check (C03_bytes_poll_sim :
+  forall ds ls, Forall wfn ds -> forall who s m, Sim ds ls s m ->
+  exists k, Sim ds ls (poll_side who s) (mrun ls (repeat (negb who) k) m)).
+Check (C03_bytes_dialer_result :
+  forall c who, wf_case c -> forall i, t_res (s_d (polls who (sys_init c))) = (0, i) ->
+  exists p, first_common (c_ds c) (c_ls c) = Some p /\ first_at (c_ds c) (c_ls c) i p).
+Check (C03_bytes_listener_result :
+  forall c who, wf_case c -> forall j, t_res (s_l (polls who (sys_init c))) = (0, j) ->
+  exists p, first_common (c_ds c) (c_ls c) = Some p /\ lidx 0 (c_ls c) p = Some j).
+Check (C03_bytes_dialer_failure :
+  forall c who, wf_case c -> forall code i, t_res (s_d (polls who (sys_init c))) = (code, i) ->
+  code <> 0 -> code <> 99 -> first_common (c_ds c) (c_ls c) = None).
+Check (C03_bytes_listener_failure :
+  forall c who, wf_case c -> forall code j, t_res (s_l (polls who (sys_init c))) = (code, j) ->
+  code <> 0 -> code <> 99 -> first_common (c_ds c) (c_ls c) = None).
+Check (C03_bytes_transparent :
+  forall c who, wf_case c ->
+  let s := polls who (sys_init c) in
+  t_done (s_d s) = true -> t_done (s_l s) = true ->
+  forall p, first_common (c_ds c) (c_ls c) = Some p ->
+  t_got (s_l s) = c_dpay c /\ t_got (s_d s) = c_lpay c /\
+  t_end (s_d s) = 0 /\ t_end (s_l s) = 0 /\ p_buf (s_dl s) = [] /\ p_buf (s_ld s) = []).
+Check (C03_bytes_run_correct :
+  forall c fuel s st, wf_case c ->
+  run_sys fuel (c_sched c) false 0 (sys_init c) = (s, st) -> st = 0 ->
+  match first_common (c_ds c) (c_ls c) with
+  | Some p =>
+      exists i j, t_res (s_d s) = (0, i) /\ t_res (s_l s) = (0, j) /\
+        first_at (c_ds c) (c_ls c) i p /\ lidx 0 (c_ls c) p = Some j /\
+        t_got (s_l s) = c_dpay c /\ t_got (s_d s) = c_lpay c /\
+        t_end (s_d s) = 0 /\ t_end (s_l s) = 0 /\ p_buf (s_dl s) = [] /\ p_buf (s_ld s) = []
+  | None =>
+      fst (t_res (s_d s)) <> 0 /\ fst (t_res (s_l s)) <> 0
+  end).
+Check (C03_bytes_poll_work :
+  forall b s, WfS s ->
+  WfS (poll_side b s) /\ Phi (poll_side b s) <= Phi s /\
+  (Phi (poll_side b s) = Phi s -> poll_side b s = s /\ Blocked b s)).
+Check (C03_bytes_no_deadlock :
+  forall ds ls, Forall wfn ds -> forall s m, Sim ds ls s m ->
+  Blocked false s -> Blocked true s ->
+  t_done (s_d s) = true /\ t_done (s_l s) = true).
+Check (C03_bytes_terminate :
+  forall c, wf_case c -> forall K who,
+  fair K who -> Phi (sys_init c) < N.of_nat K ->
+  t_done (s_d (polls who (sys_init c))) = true /\ t_done (s_l (polls who (sys_init c))) = true).
+Check (C03_lazy_immediate :
+  forall d pin pout fuel, wfn d ->
+  d_poll (S (S fuel)) (d_init [d] true) pin pout =
+  (mkDialer (DSendProto 0 d false) [] true rd_init (fr MHeader), pin, pout,
+   NLazy 0 d rd_init (fr MHeader ++ fr (MProto d)))).
+Check (C03_lazy_dialer_verdict :
+  forall d ls, starts_slash d = true -> forall junk sched,
+  let m := mrun ls sched (lazy_init d junk) in
+  (forall q, md_ph (sd m) = MDDone (Some q) -> q = d /\ supported ls d = true) /\
+  (md_ph (sd m) = MDDone None -> supported ls d = false)).
+Check (C03_lazy_listener_agreement_refuted :
+  exists d ls junk sched,
+    let m := mrun ls sched (lazy_init d junk) in
+    md_ph (sd m) = MDDone None /\ ml_ph (sl m) = MLDone (Some [47; 98]) /\ d <> [47; 98]).
+Check (C03_webrtc_listener_header_proposal :
+  forall ls p b, wf_name p -> webrtc_encode (MProto p) true = Some b ->
+  match l_find ls p with
+  | Some i => exists reply, webrtc_encode (MProto p) true = Some reply /\
+                            webrtc_listener ls b false = WLAccepted i reply
+  | None => exists reply, webrtc_encode MNa true = Some reply /\
+                          webrtc_listener ls b false = WLRejected reply
+  end).
+Check (C03_webrtc_listener_proposal_after_header :
+  forall ls p b, wf_name p -> webrtc_encode (MProto p) false = Some b ->
+  match l_find ls p with
+  | Some i => exists reply, webrtc_encode (MProto p) false = Some reply /\
+                            webrtc_listener ls b true = WLAccepted i reply
+  | None => exists reply, webrtc_encode MNa false = Some reply /\
+                          webrtc_listener ls b true = WLRejected reply
+  end).
+Check (C03_webrtc_listener_header_alone :
+  forall ls, webrtc_listener ls (uvi_enc (len MSG_HEADER) ++ MSG_HEADER) false =
+             WLPendingProtocol (uvi_enc (len MSG_HEADER) ++ MSG_HEADER)).
+Check (C03_webrtc_listener_trailing_rejected :
+  forall ls p hdr b extra, wf_name p -> webrtc_encode (MProto p) (negb hdr) = Some b ->
+  extra <> [] -> webrtc_listener ls (b ++ extra) hdr = WLErr 1).
+Check (C03_webrtc_dialer_grouping :
+  forall p rest, rest <> [] ->
+  let '(w1, r1) := webrtc_dialer_register (S (length hdr_part)) p false hdr_part in
+  r1 = WDNotReady /\
+  webrtc_dialer_register (S (length rest)) p w1 rest =
+  webrtc_dialer_register (S (length (hdr_part ++ rest))) p false (hdr_part ++ rest)).
+Check (C03_webrtc_session_agreement :
+  forall ls p fs, Forall wfw (p :: fs) ->
+  let sup := ws_supported (tag_from 0 ls) in
+  let r := webrtc_session ls p fs in
+  ws_dialer r = find sup (p :: fs) /\
+  ws_listener r = match find sup (p :: fs) with
+                  | Some q => l_find (tag_from 0 ls) q
+                  | None => None
+                  end /\
+  ws_proposed r = take_until sup (p :: fs)).
+Check (C03_fallback_reported_to_main :
+  forall cfg m fs f, wf_cfg cfg -> In (m, fs) cfg -> In f fs -> report cfg f = Some (m, Some f)).
+Check (C03_main_reported_as_main :
+  forall cfg m, wf_cfg cfg -> In m (mains cfg) -> report cfg m = Some (m, None)).
+Check (C03_unknown_not_supported :
+  forall cfg n, ~ In n (mains cfg) -> ~ In n (fallbacks cfg) -> report cfg n = None).
+Check (C03_offered_always_supported :
+  forall cfg n, In n (offered cfg) ->
+  exists m fb, report cfg n = Some (m, fb) /\ In m (mains cfg)).
